@@ -5,7 +5,7 @@ CONSTANTS
   Qtys = {1, 2, 3}
   BalInit = {0, 300, 600}
   FeePcts = {0, 50}
-  Lats = {2, 3}
+  Lats = {3}
   Sinces = {0, 1, 2, 3}
   OpenCids = {"o1"}
   MaxTrades = 2
